@@ -43,18 +43,18 @@ func approvals(rng *kernel.RNG, op string, target int64, nval int) []kernel.Step
 
 // GenWorkload produces a list of transaction steps and "block" cuts.
 func GenWorkload(rng *kernel.RNG, c GenCfg) []kernel.Step {
-	weights := map[string]int{"chain": 4, "import": 6, "cand": 3, "relayer": 2, "node": 2, "priv": 2, "noise": 2, "sig": 1, "burst": 1}
+	weights := map[string]int{"chain": 4, "import": 6, "cand": 3, "relayer": 2, "node": 2, "priv": 2, "noise": 2, "sig": 1, "burst": 1, "delonly": 0, "twoepochs": 1}
 	for k, v := range c.W {
 		weights[k] = v
 	}
 	// swarm: switch some families off entirely in some runs
-	for _, k := range []string{"chain", "import", "cand", "relayer", "node", "priv", "noise", "sig", "burst"} {
+	for _, k := range []string{"chain", "import", "cand", "relayer", "node", "priv", "noise", "sig", "burst", "delonly", "twoepochs"} {
 		if _, forced := c.W[k]; !forced && rng.Chance(0.15) {
 			weights[k] = 0
 		}
 	}
 	var fams []string
-	for _, k := range []string{"chain", "import", "cand", "relayer", "node", "priv", "noise", "sig", "burst"} {
+	for _, k := range []string{"chain", "import", "cand", "relayer", "node", "priv", "noise", "sig", "burst", "delonly", "twoepochs"} {
 		for i := 0; i < weights[k]; i++ {
 			fams = append(fams, k)
 		}
@@ -169,6 +169,42 @@ func GenWorkload(rng *kernel.RNG, c GenCfg) []kernel.Step {
 			case 3:
 				txs = append(txs, S("import", src, dst, msg, anyone(), variant))
 			}
+		case "delonly":
+			// a transaction that only deletes (unRegisterCandidate by the right owner, a whitelisting
+			// approval that fires) and is then failed by hook H3, followed by more work in the same block
+			cnd := nv + int64(rng.Intn(nCands))
+			own := nv + int64(nCands) + int64(rng.Intn(nUsers))
+			txs = append(txs, S("regcand", cnd, own), S("nocut-begin"))
+			u := S("unregcand", cnd, own)
+			if rng.Chance(0.7) {
+				u.S = "ff"
+			}
+			txs = append(txs, u, S("approvecand", cnd, int64(rng.Intn(c.NVal))), S("regchain", int64(rng.Intn(4)), 0, int64(rng.Intn(nUsers)), 0), S("nocut-end"))
+			if rng.Chance(0.5) {
+				p := int64(rng.Intn(c.NVal))
+				txs = append(txs, approvals(rng, "blacknode", p, c.NVal)...)
+				txs = append(txs, S("nocut-begin"))
+				for _, a := range approvals(rng, "whitenode", p, c.NVal) {
+					if rng.Chance(0.5) {
+						a.S = "ff"
+					}
+					txs = append(txs, a)
+				}
+				txs = append(txs, S("regrelayer", int64(rng.Intn(nUsers)), int64(rng.Intn(c.NVal))), S("nocut-end"))
+			}
+		case "twoepochs":
+			// two epoch-changing operations inside one block
+			txs = append(txs, S("nocut-begin"))
+			if rng.Chance(0.5) {
+				txs = append(txs, S("commitdpos", 0, 0))
+			} else {
+				txs = append(txs, approvals(rng, "blacknode", int64(rng.Intn(c.NVal)), c.NVal)...)
+			}
+			txs = append(txs, approvals(rng, "blacknode", int64(rng.Intn(c.NVal)), c.NVal)...)
+			if rng.Chance(0.3) {
+				txs = append(txs, S("commitdpos", 0, 0))
+			}
+			txs = append(txs, S("nocut-end"))
 		case "cand":
 			cnd := nv + int64(rng.Intn(nCands))
 			switch rng.Intn(6) {
